@@ -252,6 +252,9 @@ func runExchangeCase(c reg.Case, out *reg.Out) {
 		}
 		return
 	}
+	for _, e := range w.LT.Shape() {
+		out.Fail("harness-lt-shape", "link tree of the reference traversal violates a hypothesis of the Lean theorems: %s", e)
+	}
 	var loc, rem []int
 	done := false
 	for _, op := range c.Ops {
@@ -335,15 +338,11 @@ func judgeWire(out *reg.Out, w *World, or *oracle, wire []wireRec, nerrs []strin
 	for _, e := range nerrs {
 		out.Fail("wire-codec", "%s", e)
 	}
-	// known-finding input class (decided from the case alone, see prefixBlockResent): the responder
-	// skipped a subtree of the requestor's local prefix and meets one of that prefix's blocks again
-	// beyond its skip window
-	cls := func(c string) string {
-		if or.prefixBlockResent() {
-			return "skip-prefix-mismatch-resend"
-		}
-		return c
-	}
+	// Known finding skip-prefix-mismatch-resend is attributed only to its failure mode: a block of the
+	// requestor's local prefix, predicted from the case alone (prefixBlocksResent), transmitted beyond
+	// the window.  resend-skipped / resend-twice are never relabelled (C24.attach_window / attach_nodup
+	// hold unconditionally).
+	resent := or.prefixBlocksResent()
 	if len(or.sentNew) != 1 {
 		return
 	}
@@ -365,10 +364,10 @@ func judgeWire(out *reg.Out, w *World, or *oracle, wire []wireRec, nerrs []strin
 		}
 		for _, b := range r.msg.Blocks() {
 			if told[b.Cid()] {
-				out.Fail(cls("resend-skipped"), "responder transmitted block %s although it is among the first %d blocks it was told not to send", w.cidName(b.Cid()), skip)
+				out.Fail("resend-skipped", "responder transmitted block %s although it is among the first %d blocks it was told not to send", w.cidName(b.Cid()), skip)
 			}
 			if sentOnce[b.Cid()] {
-				out.Fail(cls("resend-twice"), "responder transmitted block %s twice within the request", w.cidName(b.Cid()))
+				out.Fail("resend-twice", "responder transmitted block %s twice within the request", w.cidName(b.Cid()))
 			}
 			sentOnce[b.Cid()] = true
 		}
@@ -380,7 +379,11 @@ func judgeWire(out *reg.Out, w *World, or *oracle, wire []wireRec, nerrs []strin
 			// a locally held block may legitimately be re-sent only if it is NOT within the loaded prefix
 			for k := 0; k < or.prefix; k++ {
 				if w.LT.Loads[k].Block == i {
-					out.Fail(cls("resend-local-prefix"), "responder transmitted block %d which the requestor had loaded locally before the request (skip=%d)", i, skip)
+					c := "resend-local-prefix"
+					if resent[i] {
+						c = "skip-prefix-mismatch-resend"
+					}
+					out.Fail(c, "responder transmitted block %d which the requestor had loaded locally before the request (skip=%d)", i, skip)
 					break
 				}
 			}
